@@ -71,9 +71,22 @@ fn build_stack(toks: &[&str]) -> Dispatch {
                 let n: usize = t[1..].parse().unwrap();
                 let end = i + 1 + toks[i + 1..].iter().position(|x| *x == ".").expect("terminator");
                 let mut p = 0;
-                let f = build(&toks[i + 1..end], &mut p);
-                i = end + 1;
-                Box::new(Rec(n).with_filter(f))
+                // a conjunction `& a c` over an odd-numbered layer is deployed as TWO nested per-layer filters
+                // (`layer.with_filter(a).with_filter(c)`): both must accept, a span either rejects is invisible — the same thing as
+                // far as the LAYERS can tell, provided a plain layer is in the stack (with nested filters the registry may keep a
+                // span that no layer wanted — the outer filter's veto leaves the inner filter's bit untouched — which shows in
+                // later spans' ancestry; with a plain layer every span exists anyway)
+                if toks[i + 1] == "&" && n % 2 == 1 && toks.iter().any(|t| t.starts_with('P')) {
+                    p = 1;
+                    let a = build(&toks[i + 1..end], &mut p);
+                    let c = build(&toks[i + 1..end], &mut p);
+                    i = end + 1;
+                    Box::new(Rec(n).with_filter(a).with_filter(c))
+                } else {
+                    let f = build(&toks[i + 1..end], &mut p);
+                    i = end + 1;
+                    Box::new(Rec(n).with_filter(f))
+                }
             }
             _ => panic!("bad stack token {}", t),
         };
